@@ -159,11 +159,20 @@ def oracle_c08(case, obs, res):
                         res.fail("paused_not_resumable", f"resume() rejected: {nxt['exc']}", **F())
             elif st == "idle":
                 if not term_requested and not nonresumable_hit and not ambiguous:
+                    # outcome-independent features: was a clear_checkpoint executed before a request of this
+                    # segment arrived (checkpoint re-arming, F3)?  did every request arrive after the plan's
+                    # last message (F2)?
+                    reqs = [i for i in obs.injected if i["seg"] == seg_i and i["inj"]["do"] in ("pause", "suspend", "defer")]
+                    cleared_before = any(
+                        any(h["msg"].command == "clear_checkpoint" for h in obs.hook[: effect_window(obs, i)[1]]) for i in reqs
+                    )
+                    hook_end = c.get("hook_end", len(obs.hook))
+                    after_end = bool(reqs) and all(effect_window(obs, i)[1] >= hook_end for i in reqs)
                     res.fail(
                         "interrupted_but_idle",
                         f"{do}() raised RunEngineInterrupted with state 'idle' although no abort/stop/halt was requested "
                         f"and no pause/suspension hit a non-resumable section (plan returned: {obs.plog.returned})",
-                        **F(plan_returned=bool(obs.plog.returned)),
+                        **F(clear_checkpoint_before_request=cleared_before, request_after_last_message=after_end),
                     )
                 # every run closed
                 runs, _ = check_docs(obs.docs[: None], idle=False, validate=False)
@@ -199,15 +208,20 @@ def interruption_features(obs):
     _, info = replay_model(obs)
     prev_cmds = []
     closed = False
+    nonrew = False
     for it in info["interruptions"]:
         hi = it["hook_index"]
+        if not it.get("rewindable", True):
+            nonrew = True
         user = [h["msg"].command for h in obs.hook[:hi] if id(h["msg"]) in obs.plog.msg_ids]
         prev_cmds.append(user[-1] if user else None)
         if "close_run" in _cmds_since_checkpoint(obs, hi):
             closed = True
     return {
         "close_run_since_checkpoint": closed,
-        "interrupted_at_nonreplayable": any(c in NON_REPLAYABLE for c in prev_cmds if c),
+        # the message in flight at the interruption is not in the replay cache: it is a
+        # non-replayable command, or it was executed while the plan was marked non-rewindable
+        "interrupted_at_nonreplayable": nonrew or any(c in NON_REPLAYABLE for c in prev_cmds if c),
         "prev_cmds": ",".join(str(c) for c in prev_cmds),
     }
 
